@@ -3,6 +3,7 @@ package symterp
 import (
 	"encoding/json"
 	"fmt"
+	"io"
 	"go/types"
 	"net/http"
 	"net/textproto"
@@ -222,6 +223,21 @@ func init() {
 		var m map[string]any
 		err := json.NewDecoder(strings.NewReader(s)).Decode(&m)
 		if err != nil {
+			// the sentinels of package io keep their identity (errors.Is(err, io.EOF))
+			if iop := fr.i.prog.ImportedPackage("io"); iop != nil {
+				name := ""
+				switch err {
+				case io.EOF:
+					name = "EOF"
+				case io.ErrUnexpectedEOF:
+					name = "ErrUnexpectedEOF"
+				}
+				if g, ok := iop.Members[name].(*ssa.Global); ok && name != "" {
+					if ev, ok := (*fr.i.globals[g]).(iface); ok && ev.t != nil {
+						return ev
+					}
+				}
+			}
 			return errVal(err.Error())
 		}
 		*dst.v.(*value) = toInterpMap(m)
@@ -249,6 +265,9 @@ func init() {
 		rt := fr.i.prog.ImportedPackage("net/http").Type("Request").Type()
 		ut := fr.i.prog.ImportedPackage("net/url").Type("URL").Type()
 		r := (*a[0].(*value)).(structure)
+		if m, ok := r[fieldIndex(rt, "Form")].(map[value]value); ok && m != nil {
+			return iface{} // net/http parses once: later calls are no-ops
+		}
 		method := strArg(r[fieldIndex(rt, "Method")])
 		raw := ""
 		var rawV value = ""
